@@ -209,7 +209,7 @@ def check_case(case, ctx):
         from vf.props import c15
 
         last = [a for a in req["aggregates"] if a != "unit"]
-        if last and len(level_keys(office, last[-1])) <= 2 and AGG_TABLE[last[-1]] in tables:
+        if last and len(level_keys(office, last[-1])) <= 3 and AGG_TABLE[last[-1]] in tables:
             probs = []
             c15.reference_check(case, run, recs, last[-1], req["estimands"][-1], req["alphas"][-1], lambda kind, detail: probs.append((kind, detail)))
             for kind, detail in probs[:1]:
